@@ -246,9 +246,9 @@ def cyl_case(ck: Check, rng):
 
 
 def cyl_boundary_case(ck: Check, rng):
-    """C01_cylinder_periodic_model on the implementation: an on-axis droplet ACROSS (or near) the periodic z boundary.  py-pde's
-    renderer is wrong there (known finding D12 of C03), so the sharp periodic image is rendered by the MODEL (exact rationals,
-    `c03 inside` with a periodic z axis) and handed to the real `locate_droplets_in_mask`."""
+    """C01_cylinder_periodic_model on the implementation: an on-axis droplet ACROSS (or near) the periodic z boundary.  The sharp periodic
+    image is rendered by the MODEL (exact rationals, `c03 inside` with a periodic z axis) and handed to the real `locate_droplets_in_mask`;
+    it is also compared with the library's own rendering (correct there since the repair of D12)."""
     from pde import CylindricalSymGrid, ScalarField
     from droplets.image_analysis import locate_droplets_in_mask
 
@@ -279,14 +279,30 @@ def cyl_boundary_case(ck: Check, rng):
     sig = {"kind": "cylindrical-boundary", "periodic_z": True}
     ck.case(("cylb", repr(grid), float(z), float(R)))
     ck.count("cylindrical.across_periodic_boundary")
+    # since the repair of D12 the library renders across the periodic z boundary itself: its sharp picture is the model's (cells whose
+    # centre lies within 1e-9 of the sphere excepted), and locating in the library-rendered field gives the same droplet
+    from droplets.droplets import SphericalDroplet
+    from droplets.image_analysis import locate_droplets
+
+    lib = SphericalDroplet(np.array([0.0, 0.0, float(z)]), float(R)).get_phase_field(grid).data > 0.5
+    rr, zz = grid.cell_coords[..., 0], grid.cell_coords[..., 1]
+    dzw = (zz - float(z) + L / 2) % L - L / 2
+    knife = np.abs(np.sqrt(rr**2 + dzw**2) - float(R)) < 1e-9
+    ck.count("cylindrical.library_rendering_across_boundary")
+    if np.any((lib != mask) & ~knife):
+        ck.fail(f"the library's rendering of an on-axis droplet at z={float(z)} (R={float(R)}) on the periodic cylinder differs from the periodic picture in "
+                f"{int(np.sum((lib != mask) & ~knife))} cells", {**sig, "check": "render_periodic_cylinder"}, case)
     try:
         found = locate_droplets_in_mask(ScalarField(grid, mask, dtype=bool))
+        found_lib = locate_droplets(ScalarField(grid, lib.astype(float)), threshold=0.5) if not knife.any() else None
     except Exception as e:  # noqa: BLE001
         ck.fail(f"locating raised {type(e).__name__}: {e}", {**sig, "check": "total"}, case)
         return
     if len(found) != 1:
         ck.fail(f"{len(found)} droplets located for one on-axis droplet across the periodic boundary", {**sig, "check": "count"}, case)
         return
+    if found_lib is not None and (len(found_lib) != 1 or not rel_close(found_lib[0].volume, found[0].volume, 1e-12) or abs(found_lib[0].position[2] - found[0].position[2]) > 1e-9 * max(1.0, L)):
+        ck.fail(f"locate_droplets on the library-rendered field gives {[str(x) for x in found_lib]}, on the periodic picture {found[0]}", {**sig, "check": "count"}, case)
     f = found[0]
     vol_cells = float(np.sum(grid.cell_volumes[mask]))
     if not rel_close(f.volume, vol_cells, 1e-12):
@@ -398,7 +414,7 @@ def run(ck: Check):
                "periodic axes; polar/spherical grids with a centred droplet; cylindrical grids (periodic z or not) with 1-2 on-axis droplets away from the z boundary; "
                "exhaustive lattice offsets (thorough); non-trivial = every distinct configuration")
     ck.assumptions = ["separation/resolution preconditions as stated in the rule (the property leaves 'well-separated' unquantified)",
-                      "cylindrical droplets are kept away from a periodic z boundary (there the rendering itself is affected by known finding D12 of C03)",
+                      "periodic cylinders: the across-boundary stream compares the library's rendering (D12 repaired) with the model's periodic picture",
                       "annular radial grids (r_min > 0) are not generated"]
     ck.lean = lean_stage("C01", extra_modules=["DropletsVerif.Props.C02", "DropletsVerif.Props.C03"], leanchecker=not ck.quick)
     try:
